@@ -7,6 +7,6 @@
 (***************************************************************************)
 EXTENDS PeerGrammar
 
-MaxLenLong == [link |-> 30, ua |-> 30, tpl |-> 30, host |-> 30, cookie |-> 30, path |-> 30, auth |-> 30, fcgi |-> 8]
+MaxLenLong == [link |-> 30, ua |-> 30, tpl |-> 30, host |-> 30, cookie |-> 30, path |-> 30, auth |-> 30, fcgi |-> 8, cgi |-> 30]
 InitLong == kind \in GrowKinds /\ toks = <<>>
 =============================================================================
